@@ -43,7 +43,7 @@ def _run(args):
 _JS = re.compile(r'^/\\ js = (".*")$', re.M)
 
 
-def _sim_cases(ctx: Ctx, num: int, seed: int, tag: str) -> list[dict]:
+def _sim_cases(ctx: Ctx, num: int, seed: int, tag: str, cfg: str = "MC_PyMiniData_sim.cfg") -> list[dict]:
     """`tlc -simulate` of the program builder: every behaviour ends in a state whose variable `js` holds the
     case as JSON (the dump files of TLC are read like Ctx.simulate does; own work dir so that several
     simulations can run side by side)."""
@@ -52,7 +52,7 @@ def _sim_cases(ctx: Ctx, num: int, seed: int, tag: str) -> list[dict]:
     wd = ctx.work / f"sim-{tag}"
     out = wd / "sim"
     out.mkdir(parents=True, exist_ok=True)
-    res = tlc.run_tlc("MC_PyMiniData", "MC_PyMiniData_sim.cfg", workdir=wd, workers=1, timeout=2400,
+    res = tlc.run_tlc("MC_PyMiniData", cfg, workdir=wd, workers=1, timeout=2400,
                       simulate=f"file={out}/tr,num={num}", depth=12, seed=seed)
     m = re.search(r"The number of states generated: (\d+)", res.output)
     if m:
@@ -87,13 +87,31 @@ def shape(c: dict) -> str:
     return "+".join(kinds)
 
 
+def _slice_paths(c: dict) -> set:
+    return {tuple(p) for p in c["exp"]["slice"]}
+
+
+_FOCUS = {
+    # the body of an inner function is in the slice
+    "clo": lambda c: any(p[0] == 0 and 3 in p[2::2] for p in _slice_paths(c)),
+    # a class-level attribute or an instance attribute with an underscore name is in the slice
+    "uattr": lambda c: bool({(8, 6), (8, 7)} & _slice_paths(c)) or any(
+        s["t"] == "store" and s["f"] == 2 and c["exp"]["slice"].count([0, i]) for i, s in enumerate(c["prog"], 1)),
+    # a line of a helper with its own branching (k, m) is in the slice
+    "hlp": lambda c: any(p[:2] in ((9, 3), (9, 4)) for p in _slice_paths(c)),
+}
+
+
 def cases(ctx: Ctx) -> list[dict]:
     q = ctx.quick
-    nsim, per = (1, 280) if q else (4, 1000)
-    with ThreadPoolExecutor(max_workers=nsim + 1) as ex:
+    # simulations: the families of the full alphabet, and the families of the closure / helper / underscore alphabets
+    nsim, per, nsim_new, per_new = (1, 200, 1, 210) if q else (3, 1000, 1, 1300)
+    with ThreadPoolExecutor(max_workers=nsim + nsim_new + 1) as ex:
         f_exh = ex.submit(ctx.behaviours, "MC_PyMiniData",
                           "MC_PyMiniData.cfg" if q else "MC_PyMiniData_thorough.cfg", timeout=2400)
         f_sims = [ex.submit(_sim_cases, ctx, per, ctx.seed * 1000 + i, str(i)) for i in range(nsim)]
+        f_sims += [ex.submit(_sim_cases, ctx, per_new, ctx.seed * 1000 + 500 + i, f"n{i}", "MC_PyMiniData_sim_new.cfg")
+                   for i in range(nsim_new)]
         exh = f_exh.result()
         sim = []
         for f in f_sims:
@@ -105,14 +123,28 @@ def cases(ctx: Ctx) -> list[dict]:
     rng = ctx.rng("pick")
     exh.sort(key=_key)
     rng.shuffle(exh)
-    if q:   # a stratified sample of the enumerated families
-        quota = {"full": 60, "attr": 100, "uattr": 60, "clo": 90}
-        picked = []
-        for c in exh:
-            if quota.get(c["alpha"], 0) > 0:
-                quota[c["alpha"]] -= 1
-                picked.append(c)
-        exh = picked
+    # a stratified sample of the enumerated families (thorough: only the new, large ones are sampled); in the closure /
+    # underscore / helper families two thirds of the sample are programs whose returned value depends (per the spec)
+    # on the feature of the family
+    quota = {"full": 50, "attr": 80, "uattr": 50, "clo": 75} if q else {"uattr": 800, "clo": 1000, "hlp": 600}
+    focus = {a: (2 * n) // 3 for a, n in quota.items() if a in _FOCUS}
+    picked, taken = [], set()
+    for want_focus in (True, False):
+        for i, c in enumerate(exh):
+            a = c["alpha"]
+            if i in taken or (q and a not in quota):
+                continue
+            if a in quota:
+                if quota[a] <= 0 or (want_focus and (focus.get(a, 0) <= 0 or not _FOCUS[a](c))):
+                    continue
+                if want_focus:
+                    focus[a] -= 1
+                quota[a] -= 1
+            elif want_focus:
+                continue
+            taken.add(i)
+            picked.append(c)
+    exh = picked
     seen, out = set(), []
     for c in exh + sim:
         k = _key(c)
